@@ -16,6 +16,7 @@ use midnight_proofs::{
     plonk::{Any, Circuit, ConstraintSystem, Error},
     verif::{self, Fault, Mode},
 };
+use rayon::iter::ParallelIterator;
 use serde_json::json;
 use vcore::{catch, CaseOut, Viol};
 use vgad::{Judgement, Outcome, F};
